@@ -8,7 +8,7 @@ from harness.drivers import c04
 chk = Check("C04X")
 base = {"op": "none", "kind": "cp", "shape": [], "rank": [], "family": "generic", "how": "function", "mode": 0, "operand": "none", "odim": 0,
         "keep": False, "copy": False, "npad": 0, "padb": False, "lens": [], "maxrank": 0, "thr": 0, "listin": False,
-        "fshapes": [], "coreshape": [], "pshapes": [], "rshapes": [], "mag": 0, "omix": "none", "steps": []}
+        "fshapes": [], "coreshape": [], "pshapes": [], "rshapes": [], "mag": 0, "omix": "none", "steps": [], "grade": 0, "negmode": False, "cmix": "none", "cdtypes": []}
 def cfg(**kw):
     c = dict(base); c.update(kw); return c
 evs = []
@@ -49,6 +49,12 @@ o2 = run("good_omix", cfg(op="tucker_mode_dot", kind="tucker", shape=[2, 3], ran
                           fshapes=[[2, 2], [3, 1]], coreshape=[2, 1]))
 mut(o2, "omix_imag_lost", lambda e: e["out"]["dense_im"].__setitem__("q", [0] * len(e["out"]["dense_im"]["q"])))
 mut(o2, "omix_dtype", lambda e: e["out"].__setitem__("dtype", "float64"))
+gr = run("good_graded", cfg(op="svd_compress", kind="slices", shape=[2, 3], rank=[3], lens=[4, 3], family="lowrank", maxrank=0, thr=0, grade=27,
+                            fshapes=[[4, 3], [3, 3]], rshapes=[[3, 3], [3, 3]]))
+mut(gr, "graded_small_component_dropped", lambda e: e["out"]["recon_hi"][0].__setitem__("q", [0] * len(e["out"]["recon_hi"][0]["q"])))
+pm = run("good_padmix", cfg(op="pad_tt_rank", kind="tt", shape=[2, 3, 2], rank=[1, 2, 2, 1], npad=1, cmix="f32_first",
+                            fshapes=[[1, 2, 2], [2, 3, 2], [2, 2, 1]], cdtypes=["float32", "float64", "float64"]))
+mut(pm, "padmix_cast", lambda e: e["out"].__setitem__("pdtypes", ["float32"] * 3))
 good = {e["id"] for e in evs if e["id"].startswith("good")}
 rej = chk.validate("TransformsTrace", evs)
 for r in sorted(rej): print(r[:2])
